@@ -553,7 +553,7 @@ fn observe(
     addr: IpAddr,
     neg: &Val,
 ) -> Val {
-    let (restarting, rt, mut lts) = {
+    let (restarting, rt, mut lts, mut dead) = {
         let ctx = context.lock().unwrap();
         (
             ctx.gr_state.is_peer_restarting(),
@@ -563,9 +563,16 @@ fn observe(
                 .filter(|(_, t)| !t.is_closed())
                 .map(|(f, _)| fam_code(f))
                 .collect::<Vec<_>>(),
+            // entries whose timer task is gone (it expired): present in the map, not an armed timer
+            ctx.llgr_family_timers
+                .iter()
+                .filter(|(_, t)| t.is_closed())
+                .map(|(f, _)| fam_code(f))
+                .collect::<Vec<_>>(),
         )
     };
     lts.sort();
+    dead.sort();
     let mut routes: Vec<Vec<i128>> = Vec::new();
     for f in PROBE_FAMS {
         for d in tables.collect_paths(table::TableQuery::AdjIn(addr), f, vec![], true) {
@@ -598,6 +605,7 @@ fn observe(
             .map(|r| Val::L(r.into_iter().map(Val::I).collect()))
             .collect()),
         neg.clone(),
+        Val::L(dead.into_iter().map(Val::I).collect()),
     ])
 }
 
@@ -718,6 +726,8 @@ async fn run_helper_case(l: &[Val]) -> Val {
     let mut cur_local_cap: Vec<packet::Capability> = caps_of(&cur_fams, 65001, &Val::L(vec![]), &Val::L(vec![]));
     // [1, events, role]: the slot of the ConnArbiter the sessions of the history use (0 / absent: Role::Passive,
     // 1: Role::Active); the second connection uses the other one
+    // [1, events, role, 1]: the restart / LLGR timers are not fired through their sender, their negotiated time runs out
+    let real_time = l.len() > 3 && l[3].int() == 1;
     let prim_role = if l.len() > 2 && l[2].int() == 1 { crate::fsm::Role::Active } else { crate::fsm::Role::Passive };
     let mut generation: i128 = 0;
     let mut obs = Vec::new();
@@ -872,11 +882,39 @@ async fn run_helper_case(l: &[Val]) -> Val {
                         .expect("verif: session task panicked");
                 }
             }
+            5 if real_time => {
+                // the negotiated restart time (1 s) really runs out: wait until the timer task is gone
+                let armed = |c: &Arc<std::sync::Mutex<PeerContext>>| {
+                    c.lock().unwrap().gr_restart_timer.as_ref().is_some_and(|t| !t.is_closed())
+                };
+                let mut spins = 0u32;
+                while armed(&context) {
+                    tokio::time::sleep(Duration::from_millis(5)).await;
+                    spins += 1;
+                    assert!(spins < 1200, "verif: the restart timer did not expire");
+                }
+            }
+            6 if real_time => {
+                let f = fam_of(&e[1]);
+                let armed = |c: &Arc<std::sync::Mutex<PeerContext>>| {
+                    c.lock().unwrap().llgr_family_timers.get(&f).is_some_and(|t| !t.is_closed())
+                };
+                let mut spins = 0u32;
+                while armed(&context) {
+                    tokio::time::sleep(Duration::from_millis(5)).await;
+                    spins += 1;
+                    assert!(spins < 1200, "verif: the LLGR timer did not expire");
+                }
+            }
             5 => {
+                // the timer task is told to run its handler now; the slot is left as a wall-clock expiry leaves it:
+                // still Some, its task gone (the expiry handlers do not touch the slot)
                 let tx = {
                     let mut ctx = context.lock().unwrap();
                     if ctx.gr_restart_timer.as_ref().is_some_and(|t| !t.is_closed()) {
-                        ctx.gr_restart_timer.take()
+                        let (dead_tx, dead_rx) = tokio::sync::oneshot::channel::<()>();
+                        drop(dead_rx);
+                        ctx.gr_restart_timer.replace(dead_tx)
                     } else {
                         None
                     }
@@ -886,11 +924,14 @@ async fn run_helper_case(l: &[Val]) -> Val {
                 }
             }
             6 => {
+                // likewise: llgr_timer_expired does not remove the family's entry from llgr_family_timers
                 let f = fam_of(&e[1]);
                 let tx = {
                     let mut ctx = context.lock().unwrap();
                     if ctx.llgr_family_timers.get(&f).is_some_and(|t| !t.is_closed()) {
-                        ctx.llgr_family_timers.remove(&f)
+                        let (dead_tx, dead_rx) = tokio::sync::oneshot::channel::<()>();
+                        drop(dead_rx);
+                        ctx.llgr_family_timers.insert(f, dead_tx)
                     } else {
                         None
                     }
